@@ -209,6 +209,8 @@ HIST_SCRIPTS = [
     # one data file listed by TWO manifests (queued again through the file-level API), then deleted: it must be gone from both
     ["append", "append", "reappend", "append", "delone", "append"],
     ["append3", "reappend", "delone", "append"],
+    # hive-style layout: equal base names in two directories (same manifest), a third pair in another manifest; one of them deleted
+    ["append", "prebuilt-pair", "append", "prebuilt-pair", "delpair1", "append", "delpair1"],
     ["prevmax:3", "append@1000", "append@1000", "append@1000", "append@1000", "prevmax:1", "append@1000", "retention:1", "append@900"],
 ]
 
@@ -262,6 +264,34 @@ def _histories(ctx, rep, model_ok):
                                                           file_size_in_bytes=os.path.getsize(full_))])
                                 tx.commit()
                             op_tok = f"add:{now}:{next_id}:-"
+                        elif kind == "prebuilt-pair":
+                            # two PRE-BUILT files with the same base name in two partition directories (hive-style), one transaction
+                            import pyarrow as pa
+                            import pyarrow.parquet as pq
+                            from datashard.data_structures import DataFile, FileFormat
+                            sch_ = t.file_manager.data_file_manager.create_arrow_schema(tablekit.schema())
+                            dfs_ = []
+                            for reg_ in ("eu", "us"):
+                                rel_ = f"data/region={reg_}/part-{si}.parquet"
+                                os.makedirs(os.path.dirname(os.path.join(path, rel_)), exist_ok=True)
+                                pq.write_table(pa.table({"id": [7000 + si], "name": [reg_]}, schema=sch_), os.path.join(path, rel_))
+                                # the two accepted spellings of a table-relative path: with and without a leading slash
+                                dfs_.append(DataFile(file_path=("/" + rel_) if reg_ == "eu" else rel_, file_format=FileFormat.PARQUET, partition_values={}, record_count=1,
+                                                     file_size_in_bytes=os.path.getsize(os.path.join(path, rel_))))
+                            with t.new_transaction() as tx:
+                                tx.append_files(dfs_)
+                                tx.commit()
+                            op_tok = f"add:{now}:{next_id}:-"
+                        elif kind == "delpair1":
+                            # delete ONE of the two same-named files: exactly that one disappears
+                            victims = ([p_ for p_ in tablekit.data_paths(t) if "region=us/" in p_] + [p_ for p_ in tablekit.data_paths(t) if "region=eu/" in p_])[:1]
+                            if not victims:
+                                continue
+                            with t.new_transaction() as tx:
+                                tx.delete_files(["/" + victims[0]])
+                                tx.commit()
+                            op_tok = f"add:{now}:{next_id}:-"
+                            trace.append(["expect-deleted", victims])
                         elif kind == "delone":
                             cur_paths = tablekit.data_paths(t)
                             victims = cur_paths[:1]
@@ -353,7 +383,7 @@ def _histories(ctx, rep, model_ok):
                         want_ = sorted(int(x_) for x_ in m_.split("deletes=")[1].split(" ")[0].split(",") if x_)
                         if want_ != removed:
                             rep.diverge("tx.partition (several deletes queued in one transaction)", {"ops": multi_delete}, m_, removed)
-                    if kind in ("delfiles", "delfiles2", "delone"):
+                    if kind in ("delfiles", "delfiles2", "delone", "delpair1"):
                         gone = set(trace[-2][1])
                         expect = [p for p in known_paths if p not in gone]
                         if sorted(paths) != sorted(expect):
